@@ -7,7 +7,7 @@ from sexpr import enc, hexs
 from odata_query import ast
 
 def prop_mods(pid):
-    base = ["ODataVerif.Tie.Orm"]
+    base = ["ODataVerif.Tie.Orm", "ODataVerif.Spec.NumFn"]
     for m in (f"ODataVerif.Props.{pid}",):
         if os.path.exists(common.lean_module_path(m)):
             base.append(m)
@@ -60,7 +60,7 @@ def build_filters(ctx, features_drop=()):
     return [(w, n, t) for (w, n), t in zip(uniq, texts) if t is not None]
 
 def load_rows(rows):
-    dbenv.django_load_scalar([dict(r, f1=None, d1=None, dt1=None) for r in rows])
+    dbenv.django_load_scalar([dict({"f1": None, "d1": None, "dt1": None}, **{k: v for k, v in r.items() if not k.startswith("_")}) for r in rows])
     dbenv.sa_load_scalar(rows)
 
 def run_semantic(ctx, pid, backend, styles, cases, rows_sets):
@@ -204,6 +204,23 @@ def run(ctx, pid="C02"):
                       bucket=lambda c, r: backend + "/" + " ".join(r.split(" ")[:2]))
     viol, env_mis, tally, dist, kf_hits, refusal = run_semantic(ctx, pid, backend, styles, cases, rows_sets)
     viol += case_twins(ctx, pid, backend, styles, cases, sm.rows_for(rng, 24))
+    # numeric stream: floor / ceiling / round over a fractional column, judged against Spec.NumFn (Lean)
+    ntally_all, nviol = collections.Counter(), []
+    for sname, fn in styles:
+        for with_null in (False, True):
+            nrows = sm.numeric_rows(with_null)
+            load_rows(nrows)
+            def ids_of(t, fn=fn, with_null=with_null):
+                r = fn(t)
+                if pid == "C03" and with_null and t.startswith("floor(") and r.startswith("env:OperationalError"):
+                    return "skip"      # SQLAlchemy's pysqlite dialect replaces floor() by a Python function that raises on NULL: environment
+                return {int(x) for x in r.split()[1:]} if r.startswith("ids") else r
+            v, tl = sm.judge_numeric(ctx, ids_of, nrows)
+            nviol += [(f"{t}", None, row, f"[{sname}] {why}") for t, row, why in v if "skip" not in why]
+            ntally_all.update(tl)
+    ctx.extra["judged_numeric"] = dict(ntally_all)
+    ctx.note(f"numeric stream (floor / ceiling / round x 6 comparisons x 7 constants, with and without a NULL row, every entry style, Spec.NumFn): {dict(ntally_all)}")
+    viol += nviol
     ctx.extra["judged"] = dict(tally)
     ctx.extra["filters_constant_vs_discriminating"] = dict(dist)
     ctx.extra["known_finding_hits"] = kf_hits
